@@ -69,8 +69,8 @@ PushByteW(E, w, b, def) ==
         Ok(entry, rows, vend) == [ok |-> TRUE, stack |-> Append(w.stack, entry), rows |-> rows, vend |-> vend]
     IN
     IF DOMAIN c2 # {}
-    THEN IF AllEnded(E.L, c2)
-         THEN LET pr == PushRow(E, w.rows, w.vend, n, DOMAIN c2, def) IN
+    THEN IF EndsNow(E.L, c2) # {}
+         THEN LET pr == PushRow(E, w.rows, w.vend, n, EndsNow(E.L, c2), def) IN
               IF ~pr.ok THEN Fail(pr.rows, pr.vend)
               ELSE Ok([row |-> n + 1, cur |-> StartCur(E, pr.rows, n + 1), started |-> FALSE], pr.rows, pr.vend)
          ELSE Ok([row |-> n, cur |-> c2, started |-> TRUE], w.rows, w.vend)
@@ -80,8 +80,8 @@ PushByteW(E, w, b, def) ==
               IF ~pr.ok THEN Fail(pr.rows, pr.vend)
               ELSE LET c3 == Derive(E.L, StartCur(E, pr.rows, n + 1), b) IN
                    IF DOMAIN c3 = {} THEN Fail(pr.rows, pr.vend)
-                   ELSE IF AllEnded(E.L, c3)
-                        THEN LET pr2 == PushRow(E, pr.rows, pr.vend, n + 1, DOMAIN c3, def) IN
+                   ELSE IF EndsNow(E.L, c3) # {}
+                        THEN LET pr2 == PushRow(E, pr.rows, pr.vend, n + 1, EndsNow(E.L, c3), def) IN
                              IF ~pr2.ok THEN Fail(pr2.rows, pr2.vend)
                              ELSE Ok([row |-> n + 2, cur |-> StartCur(E, pr2.rows, n + 2), started |-> FALSE],
                                      pr2.rows, pr2.vend)
